@@ -207,6 +207,21 @@ func directedCredit() []hist {
 		}
 		hs = append(hs, h)
 	}
+	// the claim that completes a prophecy is not the content that wins: content A gathers 3 of 5 equal validators
+	// (below 70 %); the denominator shrinks (whitelist removal / unbonding / loss of power of a validator that never
+	// claimed) so that A holds 3 of 4; the next accepted claim carries a conflicting content B.  The prophecy is
+	// finalised as A inside B's message: A's receiver must be credited with A's amount, B's content nothing.
+	for _, shrink := range []string{"tx wl 3 remove 4", "val 4 10 0", "val 4 0 1"} {
+		var h hist
+		stdSetup(&h, []int64{10, 10, 10, 10, 10}, nil, "0,1,2,3,4")
+		for v := 0; v < 3; v++ {
+			h.add(claimLine(v, 1, 31, snd0, 4, "1000", "usdc", tok1, 2))
+		}
+		h.add(shrink)
+		h.add(claimLine(3, 1, 31, snd0, 5, "1000000", "eth", tok0, 2)) // B: other receiver, amount, symbol
+		h.add(claimLine(3, 1, 31, snd0, 4, "1000", "usdc", tok1, 2))    // late
+		hs = append(hs, h)
+	}
 	return hs
 }
 
@@ -436,6 +451,126 @@ func randomHistory(rng *Rng, profile string) hist {
 	return h
 }
 
+// randContent draws a claim content "recv amount symbol token type" (mostly creditable)
+func randContent(rng *Rng, wild bool) string {
+	recv := 3 + rng.Intn(bNAccts-3)
+	amount := rng.Amount(90).String()
+	sym := symPool[rng.Intn(3)]
+	typ := 2
+	if sym == "rowan" {
+		typ = 1
+	}
+	tok := ethSpelling(rng, ethBases[0])
+	if wild {
+		switch rng.Intn(8) {
+		case 0:
+			recv = rng.Intn(3)
+		case 1:
+			amount = "0"
+		case 2:
+			amount = "-" + amount
+		case 3:
+			typ = rng.Intn(3)
+		case 4:
+			sym = symPool[rng.Intn(len(symPool))]
+		}
+	}
+	if strings.ToLower(sym) == "eth" {
+		tok = ethSpelling(rng, ethBases[2])
+	}
+	return fmt.Sprintf("%d %s %s %s %d", recv, amount, sym, tok, typ)
+}
+
+// shrinkHistory: a history in which the power behind a content A stays below the threshold until the denominator
+// shrinks (validators that never claimed are removed from the whitelist, unbonded, or lose power), after which the
+// next accepted claim about the event carries a conflicting content B: the prophecy completes as A inside B's message
+// (or, when the shrink was not enough, stays pending / completes later — the draw does not decide, the keepers do).
+func shrinkHistory(rng *Rng, profile string) hist {
+	var h hist
+	nv := 4 + rng.Intn(bNVals-3) // 4..8
+	powers := make([]int64, nv)
+	scale := []int64{1, 1, 10, 1000}[rng.Intn(4)]
+	equal := rng.Chance(1, 2)
+	for i := range powers {
+		if equal {
+			powers[i] = 10 * scale
+		} else {
+			powers[i] = int64(5+rng.Intn(26)) * scale
+		}
+	}
+	// roles: a permutation of the validators; the first k claim A, the last one completes, some in between are removed
+	perm := make([]int, nv)
+	for i := range perm {
+		perm[i] = i
+	}
+	for i := nv - 1; i > 0; i-- {
+		j := rng.Intn(i + 1)
+		perm[i], perm[j] = perm[j], perm[i]
+	}
+	var total int64
+	for _, p := range powers {
+		total += p
+	}
+	// claimants of A: as many as stay below 70 % of the full total
+	var pa int64
+	k := 0
+	for k < nv-2 && 10*(pa+powers[perm[k]]) < 7*total {
+		pa += powers[perm[k]]
+		k++
+	}
+	if k == 0 {
+		k, pa = 1, powers[perm[0]]
+	}
+	// removed: validators perm[k..nv-2] until A reaches 70 % of what is left (sometimes one fewer / one more)
+	rem := total
+	r := k
+	for r < nv-1 && 10*pa < 7*rem {
+		rem -= powers[perm[r]]
+		r++
+	}
+	if rng.Chance(1, 8) && r > k {
+		r-- // not enough: the conflicting claim does not complete A
+	}
+	stdSetup(&h, powers, nil, seq(nv))
+	ev := int64(40 + rng.Intn(20))
+	snd := ethSpelling(rng, ethBases[1])
+	A := randContent(rng, false)
+	B := randContent(rng, profile == "credit" && rng.Chance(1, 3))
+	for B == A {
+		B = randContent(rng, false)
+	}
+	for i := 0; i < k; i++ {
+		h.add("tx claim %d 1 %d %s %s", perm[i], ev, snd, A)
+		if rng.Chance(1, 6) {
+			h.add("tx claim %d 1 %d %s %s", perm[rng.Intn(nv)], ev+100, snd, randContent(rng, false)) // another event in flight
+		}
+	}
+	for i := k; i < r; i++ {
+		switch rng.Intn(4) {
+		case 0:
+			h.add("val %d %d 0", perm[i], powers[perm[i]]) // unbonded / jailed
+		case 1:
+			h.add("val %d 0 1", perm[i]) // lost its power
+		default:
+			h.add("tx wl 3 remove %d", perm[i])
+		}
+	}
+	completer := perm[nv-1]
+	if rng.Chance(1, 10) {
+		completer = perm[rng.Intn(k)] // a validator that already claimed A: duplicate
+	}
+	h.add("tx claim %s 1 %d %s %s", sp(rng, completer, 15), ev, snd, B)
+	// afterwards: late claims of either content, by anybody
+	for i := rng.Intn(4); i > 0; i-- {
+		c := A
+		if rng.Bool() {
+			c = B
+		}
+		h.add("tx claim %d 1 %d %s %s", perm[rng.Intn(nv)], ev, snd, c)
+	}
+	return h
+}
+
 // sp spells an address field: the alias, with probability 1/den followed by "U" (all-upper-case bech32)
 func sp(rng *Rng, alias int, den int) string {
 	if rng.Chance(1, den) {
@@ -519,7 +654,15 @@ func runBridge(profile string, directed func() []hist) Family {
 		}
 		hs := directed()
 		for len(hs) < n {
-			hs = append(hs, randomHistory(rng, profile))
+			den := 10
+			if profile == "credit" {
+				den = 4
+			}
+			if rng.Chance(1, den) {
+				hs = append(hs, shrinkHistory(rng, profile))
+			} else {
+				hs = append(hs, randomHistory(rng, profile))
+			}
 		}
 		for _, h := range hs {
 			for r := 0; r < bReps; r++ {
